@@ -52,7 +52,10 @@ TMutate == IsEvent("Mutate") /\ UNCHANGED <<vars, seen>>
 TSilent == /\ \/ \E r \in Reqs : ReadGen(r) \/ Lookup(r) \/ StoreOrAmend(r)
               \/ InvBump \/ InvTrim \/ TrimStep
            /\ Silent /\ UNCHANGED seen
-TraceNext == TReset \/ TCall \/ TFetchCall \/ TCompute \/ TFail \/ TDeliver \/ TRet \/ TRetErr \/ TReorg \/ TInvCall \/ TInvRet
+\* the node's active validator set changed (what an index-less request stands for): requests that name their indices - the
+\* statement's subject - do not depend on it
+TSetActive == IsEvent("SetActive") /\ UNCHANGED vars /\ UNCHANGED seen
+TraceNext == TSetActive \/ TReset \/ TCall \/ TFetchCall \/ TCompute \/ TFail \/ TDeliver \/ TRet \/ TRetErr \/ TReorg \/ TInvCall \/ TInvRet
              \/ TTrimCall \/ TTrimRet \/ TMutate \/ TSilent
 TraceSpec == TraceInit /\ [][TraceNext]_tvars
 
